@@ -22,7 +22,7 @@ LEVEL = "model_checking"
 RULE = (
     "(i) alphabet per evaluator configuration c (quick: c1 = UNMATCHED + default metric lists, c2 = UNMATCHED + explicit lists, groups, decision, asymmetric handler; thorough: + c0 = all defaults (MATCHED), c3 = SEMANTIC): "
     "newE(c), evaluate(x0|x1|x2), evaluate(x0, save_group_times=True), evaluate(x0, result_all=False, log_times=True, verbose=True), read resulting_metric_keys, save_to_config, new aggregator(log_times F|T), aggregator.evaluate; "
-    "+ new default EdgeCaseHandler, direct panoptic_evaluate with defaults; ALL histories of length <= 3 (thorough <= 4 on the quick alphabet), each in a pristine forked process; "
+    "+ new default EdgeCaseHandler, direct panoptic_evaluate with defaults, construction (+ attempted use) of two evaluators with unusual argument combinations (decision metric outside the default metric list; RVD decision at 0 with all flags); ALL histories of length <= 3 (thorough <= 4 on the quick alphabet), each in a pristine forked process; "
     "semantic histories: ALL histories of length <= 4 (thorough 5) over {new evaluator, new evaluator sharing the approximator object, evaluate 1-D / 2-D / 3-D input with diagonal contacts on either evaluator}; "
     "(ii) result_all{T,F} x save_group_times{None,T,F} x log_times{None,T,F} x verbose{None,T,F} x constructor flags 2^3 x 3 inputs x 2 configurations; "
     "(iii) all pairs of G1(4,2) with >= 2 tasks: serial vs every task execution order of each pool call; 64 (thorough 512) inputs with the real multiprocessing.Pool. "
@@ -39,7 +39,8 @@ BUDGET = {"quick": 300, "thorough": 3000}
 X = [
     (np.array([[1, 1, 0, 0, 0], [0, 0, 2, 2, 2], [3, 0, 0, 0, 0]], dtype=np.uint8), np.array([[1, 1, 1, 0, 0], [0, 0, 2, 2, 0], [0, 0, 0, 3, 3]], dtype=np.uint8)),
     (np.zeros((3, 5), dtype=np.uint8), np.array([[1, 1, 1, 0, 0], [0, 0, 2, 2, 0], [0, 0, 0, 0, 0]], dtype=np.uint8)),
-    (np.array([[1, 1, 2, 2, 0], [1, 0, 0, 2, 0], [3, 3, 3, 0, 0]], dtype=np.uint8), np.array([[1, 1, 1, 2, 0], [1, 0, 0, 2, 0], [0, 3, 3, 0, 0]], dtype=np.uint8)),
+    # no background voxel at all, and only labels of c2's merge group {2, 3}
+    (np.array([[2, 2, 3, 3, 3], [2, 2, 2, 3, 3], [2, 3, 3, 3, 3]], dtype=np.uint8), np.array([[2, 2, 2, 3, 3], [2, 2, 3, 3, 3], [3, 3, 3, 3, 3]], dtype=np.uint8)),
 ]
 ASYM = {"std": "ZERO", "metrics": {"DSC": ["NAN", "ZERO", "ONE", "INF"], "IOU": ["INF", "ONE", "ZERO", "NAN"], "ASSD": ["ZERO", "INF", "NAN", "ONE"], "RVD": ["ONE", "NAN", "INF", "ZERO"], "clDSC": ["NONE", "ZERO", "ONE", "NAN"]}}
 
@@ -74,8 +75,20 @@ def alphabet(configs):
     for c in configs:
         ops += [("newE", c), ("eval", c, 0, "default"), ("eval", c, 1, "default"), ("eval", c, 2, "default"), ("eval", c, 0, "sgt"), ("eval", c, 0, "quiet"),
                 ("keys", c), ("save", c), ("newA", c, False), ("newA", c, True), ("aeval", c, 0)]
-    ops += [("newH",), ("direct",)]
+    ops += [("newH",), ("direct",), ("newOdd", 0), ("newOdd", 1)]
     return ops
+
+
+def new_odd(k):
+    """legal constructor calls with unusual argument combinations (they may fail later at evaluate(); constructing them must not
+    change anybody else)"""
+    from panoptica import Panoptica_Evaluator
+    from panoptica.instance_matcher import NaiveThresholdMatching
+
+    if k == 0:  # decision metric that is not among the (default) instance metrics
+        return Panoptica_Evaluator(expected_input=ITYPE["UNMATCHED"], instance_matcher=NaiveThresholdMatching(), decision_metric=Metric.clDSC, decision_threshold=0.5)
+    # global metric list given as the default of another call + log flags
+    return Panoptica_Evaluator(expected_input=ITYPE["MATCHED"], decision_metric=Metric.RVD, decision_threshold=0.0, save_group_times=True, log_times=True, verbose=True)
 
 
 def obs_of(out):
@@ -289,6 +302,12 @@ def _history_child(hist, base):
                     bad = [h for h in exp if not h.endswith("computation_time") and got.get(h) != exp[h]]
                     if bad or len(rows[-1]) != len(rows[0]):
                         viol.append(("C15:aggregator_row_depends_on_history", f"{where}: row differs from a fresh setup in {bad[:5]} (cells {len(rows[-1])} vs header {len(rows[0])})"))
+            elif op[0] == "newOdd":
+                odd = new_odd(op[1])
+                try:
+                    odd.evaluate(X[0][0].copy(), X[0][1].copy(), verbose=False)
+                except Exception:
+                    pass
             elif op[0] == "newH":
                 EdgeCaseHandler()
             elif op[0] == "direct":
